@@ -59,6 +59,13 @@ let ttable : (string * bool * bool * (int list -> int list option)) array = [|
   ("<none>", false, true, (fun d -> Some (take 2 d)));
   ("sed y/abc/xyz/ $IN --in-place", false, true, (fun _ -> Some []));
   ("sed y/abc/xyz/ $IN", true, true, (fun d -> Some d));
+  (* two DIFFERENT programs with the same file name in different directories (paths relative to the working
+     directory of the harness / of fclones) and identical argument text: the verbatim command strings differ *)
+  ("v1/vk_norm", false, false, (fun d -> Some (take 3 d)));
+  ("v2/vk_norm", false, false, (fun d -> Some d));
+  (* the same transforms as 1 and 0 spelled with other whitespace: other verbatim strings, so other trees *)
+  ("head  -c 3", false, false, (fun d -> Some (take 3 d)));
+  ("cat ", false, false, (fun d -> Some d));
 |]
 
 let tconf_of_index i =
